@@ -110,8 +110,16 @@ func NewType1Font(fontDict core.Dict, resolver func(core.IndirectRef) (core.Obje
 func (t1 *Type1Font) parseEncoding(fontDict core.Dict, resolver func(core.IndirectRef) (core.Object, error)) error {
 	encodingObj := fontDict.Get("Encoding")
 	if encodingObj == nil {
-		// Use default encoding
-		t1.Encoding = "StandardEncoding"
+		// Use the font's built-in encoding: the standard Symbol and ZapfDingbats
+		// fonts have their own, every other Type1 font StandardEncoding
+		switch baseFontWithoutSubsetTag(t1.BaseFont) {
+		case "Symbol":
+			t1.Encoding = "SymbolEncoding"
+		case "ZapfDingbats":
+			t1.Encoding = "ZapfDingbatsEncoding"
+		default:
+			t1.Encoding = "StandardEncoding"
+		}
 		return nil
 	}
 
@@ -163,6 +171,14 @@ func (t1 *Type1Font) parseEncoding(fontDict core.Dict, resolver func(core.Indire
 	}
 
 	return fmt.Errorf("invalid encoding type: %T", encodingObj)
+}
+
+// baseFontWithoutSubsetTag strips a subset tag ("ABCDEF+") from a BaseFont name.
+func baseFontWithoutSubsetTag(name string) string {
+	if len(name) > 7 && name[6] == '+' {
+		return name[7:]
+	}
+	return name
 }
 
 // applyEncodingDifferences applies the Differences array to customize encoding
